@@ -29,7 +29,7 @@ def jobs(tier):
     if tier == "quick":
         sh = sched.shapes(2, maxtop=3, maxleaves=3)
     else:
-        sh = sched.shapes(3, maxtop=3, maxleaves=4)
+        sh = sched.thorough_shapes(always=False)
     sweep = [("C03", s, "sweep") for s in [("L",), ("L", "L"), (("D", False, ("L",)),), (("D", False, ("L", "L")),)]]
     return [("C03", s) for s in sh] + sharded(sweep, 8)
 
